@@ -218,6 +218,32 @@ def run(ctx):
     ctx.floor("panic sites depending on parsed numbers", n, 10)
     ctx.notes.append("T5 stats: %s; functions reachable from from_str: %d" % (eng.stats, len(reach)))
 
+    # assertions about the D-set that was built from the text: the text decides the contents of that D-set, so an assertion on the way to
+    # the result that speaks about its contents is a condition on the input.  The only one on the reference tree is SimpleDSet::from_partial's
+    # `assert!(ds.is_complete())`, which the fill loop of from_str establishes (T3-fill-complete below); any other one (e.g. "far-apart
+    # operations commute") can be violated by a syntactically valid text and turns a parse into a panic.
+    eng.inprogress.add(ENTRY)
+    try:
+        raw_all = eng.raw_clauses(body, 0, phi=False)
+    finally:
+        eng.inprogress.discard(ENTRY)
+    nas = 0
+    for c in raw_all:
+        if c.kind != "assert" or len(c.chain) < 2:
+            continue
+        terms = [x for a in c.trig for y in a[1:] if isinstance(y, tuple) for x in subterms(y)]
+        if not any(x[0] == "local" and x[1] in built for x in terms) or any(has_parse(x) for x in terms if isinstance(x, tuple)):
+            continue
+        if any(x[0] == "rel" for x in c.trig) and all(x[0] == "rel" and x[1] in ("Lt", "Le") for x in c.trig):
+            continue          # range assertions on indices / chambers: decided by the T5 obligations above
+        nas += 1
+        justified = any(a[0] in ("bool", "rel") and any(isinstance(y, tuple) and is_call(strip(y), "::is_complete") for y in a[1:]) for a in c.trig)
+        chain = ">".join(x.split("::")[-1] for x in c.chain[1:])
+        ctx.ob("T5-assert-on-built-dset", ENTRY, "%s:%s" % (chain, "is_complete" if justified else show_atom(c.trig[0])[:50]), "ok" if justified else "violation",
+               "completeness of the built D-set is established by the fill loop (every still-undefined entry is either set or the text is rejected)" if justified else
+               "an assertion about the contents of the D-set built from the text (%s, via %s) is not established by from_str: a syntactically valid text that violates it makes parse() panic instead of returning Err" % (
+                   " & ".join(show_atom(a)[:60] for a in c.trig), chain), c.span)
+    ctx.floor("assertions about the built D-set on the parse path", nas, 1)
     writer_reader(ctx, g, body)
     grammar_total(ctx, g)
     # ---- U3: unwrap of a lookup in one of the parsed lists needs a dominating comparison on that list's length
